@@ -170,6 +170,50 @@ theorem set_query_push_delivers (cfg : Cfg) (s : State V) (b : Back V) (m : AL V
   show (match (lget (lset b.newData k v) k).map JVal.norm with | some v => some v | none => lget m k) = _
   rw [lget_lset_same]; rfl
 
+/-- statements that only read: `Get`, `GetID`, `ToJson`, `QuerySession` -/
+def Quiet : SOp V → Prop
+  | .get _ | .query | .json | .id => True
+  | _ => False
+
+/-- the general form: a value set on a session survives ANY number of reads and queries and is
+delivered by the next push — the connection's map then holds its normalised form -/
+theorem pending_survives_reads (cfg : Cfg) (mid : List (SOp V)) :
+    ∀ (s : State V) (b : Back V) (m : AL V) (k : Key) (v : V) (kept : Option String),
+      Inv true s → BackInv true b → b.ns ≠ "" → cfg.isFront b.serverId = true →
+      lget s.fronts b.target = some m → b.dirt = true → lget b.newData k = some v → (∀ op ∈ mid, Quiet op) →
+      (lget (runScript cfg s (.back b) kept (mid ++ [.push])).st.fronts b.target).bind (fun m' => lget m' k)
+        = some (JVal.norm v) := by
+  induction mid with
+  | nil =>
+    intro s b m k v kept hs hb hns hf hm hd hk _
+    have hns' : ¬ b.ns = "" := hns
+    have hj := toJson_eq_some hb.ndN (hb.repN rfl)
+    have hkk : (keys (b.newData.map fun e => (e.1, (JVal.norm e.2 : V)))).Nodup := by
+      rw [keys_map_val]; exact hb.ndN
+    have hp := backPush_live cfg s b m _ hd hf hm hj
+    simp only [List.nil_append, runScript, sstep, sstepBack, hns', if_false, hp, lget_lset_same, Option.bind_some]
+    rw [lget_amerge _ _ _ hkk, lget_map_val, hk]; rfl
+  | cons op mid ih =>
+    intro s b m k v kept hs hb hns hf hm hd hk hq
+    have hq' : ∀ o ∈ mid, Quiet o := fun o ho => hq o (by simp [ho])
+    have hop := hq op (by simp)
+    have hns' : ¬ b.ns = "" := hns
+    cases op with
+    | get k' => exact ih s b m k v kept hs hb hns hf hm hd hk hq'
+    | json => exact ih s b m k v kept hs hb hns hf hm hd hk hq'
+    | id => exact ih s b m k v kept hs hb hns hf hm hd hk hq'
+    | query =>
+      have hql := backQuery_live cfg s b m hs hb hf hm
+      have hbi : BackInv true ({ b with data := amerge b.data (m.map fun e => (e.1, JVal.norm e.2)) } : Back V) := by
+        have := backInv_fromJson hb (fun hg' => (hs.fronts _ _ hm).rep hg') (m := m)
+        rw [fromJson_live hb (hs.fronts _ _ hm)] at this
+        exact this
+      have h2 := ih s { b with data := amerge b.data (m.map fun e => (e.1, JVal.norm e.2)) } m k v kept hs hbi hns hf hm hd hk hq'
+      have ht : ({ b with data := amerge b.data (m.map fun e => (e.1, JVal.norm e.2)) } : Back V).target = b.target := rfl
+      rw [ht] at h2
+      simpa only [List.cons_append, runScript, sstep, sstepBack, hns', if_false, hql] using h2
+    | _ => exact absurd hop (by simp [Quiet])
+
 /-- the pre-fix `FromJson` cleared the flag … -/
 theorem d16_prefix_query_clears_dirty (b : Back V) (j : Option (AL V)) (h : (b.fromJsonPre j).2 = false) :
     (b.fromJsonPre j).1.dirt = false := by
@@ -201,6 +245,21 @@ theorem replay_write_last (c : Conn) (cur : Option (AL V)) (evs : List (Ev V)) (
   rw [replay_append]
   simp [replay, applyEv]
 
+/-- the statement's wording over whole histories: if the history of a live connection `c`
+contains a write (a delivered push or a front-local set) carrying `k = v`, and nothing after it
+closes `c` or writes `k` on `c` again, then at the end `c` holds `v` under `k` — later writes
+win per key, and keys a write does not mention persist through it -/
+theorem latest_write_wins (cfg : Cfg) (ops : List (Op V)) (c : Conn) (pre post : List (Ev V)) (kvs : AL V)
+    (k : Key) (v : V) (m0 : AL V)
+    (hh : (run cfg State.init ops).2 = pre ++ Ev.write c kvs :: post)
+    (hlive : replay c none pre = some m0) (hk : (keys kvs).Nodup) (hv : lget kvs k = some v)
+    (hpost : ∀ e ∈ post, e.keeps c k) :
+    ∃ m, lget (run cfg State.init ops).1.fronts c = some m ∧ lget m k = some v := by
+  rw [front_is_fold_of_writes, hh, replay_append, hlive, replay_cons]
+  simp only [applyEv, if_true, Option.map_some]
+  obtain ⟨m', h1, h2⟩ := replay_keeps_key c k (amerge m0 kvs) post hpost
+  exact ⟨m', h1, by rw [h2, lget_amerge _ _ _ hk, hv]⟩
+
 /-- over ALL histories every map has unique keys (it is a Go map) -/
 theorem maps_have_unique_keys (cfg : Cfg) (ops : List (Op V)) (c : Conn) (m : AL V)
     (h : lget (run cfg State.init ops).1.fronts c = some m) : (keys m).Nodup :=
@@ -223,6 +282,68 @@ theorem other_sessions_untouched (cfg : Cfg) (s : State V) (op : Op V) (c : Conn
     (h : ∀ e ∈ (step cfg s op).evs, e.conn ≠ c) :
     lget (step cfg s op).st.fronts c = lget s.fronts c := by
   rw [step_replay, replay_other _ _ h]
+
+/-- what a write event is: a front-local `Set`/`Bind` of one key, or the delivery of the whole
+normalised NewData of a back-end session to the connection it addresses -/
+theorem write_events_are_sets_and_pushes (cfg : Cfg) (s : State V) (sess : Sess V) (kept : Option String) (op : SOp V) :
+    (sstep cfg s sess kept op).evs = [] ∨
+    (∃ c k v, sess = .front c ∧ (sstep cfg s sess kept op).evs = [Ev.write c [(k, v)]]) ∨
+    (∃ b kvs, sess = .back b ∧ SData.toJson b.newData = some kvs ∧
+      (sstep cfg s sess kept op).evs = [Ev.write (stmtTarget sess op) kvs]) := by
+  have hdel : ∀ (s : State V) (c : Conn) (j : Option (AL V)),
+      (deliver s c j).2 = [] ∨ ∃ kvs, j = some kvs ∧ (deliver s c j).2 = [Ev.write c kvs] := by
+    intro s c j
+    unfold deliver
+    cases lget s.fronts c with
+    | none => exact Or.inl rfl
+    | some m =>
+      cases j with
+      | none => exact Or.inl rfl
+      | some kvs => exact Or.inr ⟨kvs, rfl, rfl⟩
+  cases sess with
+  | front c0 =>
+    simp only [sstep, sstepFront]
+    cases hm : lget s.fronts c0 with
+    | none => exact Or.inl rfl
+    | some m =>
+      cases op with
+      | set k v => exact Or.inr (Or.inl ⟨c0, k, v, rfl, rfl⟩)
+      | bind uid => exact Or.inr (Or.inl ⟨c0, KeyUId, JVal.str uid, rfl, rfl⟩)
+      | _ => exact Or.inl rfl
+  | back b =>
+    simp only [sstep]
+    cases op with
+    | push =>
+      simp only [sstepBack]
+      split
+      · exact Or.inl rfl
+      · simp only [backPush]
+        split
+        · exact Or.inl rfl
+        · split
+          · exact Or.inl rfl
+          · cases hdel s b.target (SData.toJson b.newData) with
+            | inl h => exact Or.inl h
+            | inr h => obtain ⟨kvs, hj, he⟩ := h; exact Or.inr (Or.inr ⟨b, kvs, rfl, hj, he⟩)
+    | pushTo c0 =>
+      simp only [sstepBack]
+      split
+      · exact Or.inl rfl
+      · cases hdel s c0 (SData.toJson b.newData) with
+        | inl h => exact Or.inl h
+        | inr h => obtain ⟨kvs, hj, he⟩ := h; exact Or.inr (Or.inr ⟨b, kvs, rfl, hj, he⟩)
+    | query =>
+      simp only [sstepBack]
+      split <;> exact Or.inl rfl
+    | keep h =>
+      simp only [sstepBack]
+      split
+      · exact Or.inl rfl
+      · split <;> exact Or.inl rfl
+    | fromF c0 =>
+      simp only [sstepBack]
+      split <;> exact Or.inl rfl
+    | _ => exact Or.inl rfl
 
 /-- a handler statement writes at most the map of the connection its session addresses -/
 theorem statement_writes_only_its_target (cfg : Cfg) (s : State V) (sess : Sess V) (kept : Option String)
@@ -375,6 +496,31 @@ theorem envelope_sees_pushed_uid (m nd : AL V) (uid : String) (hnd : (keys nd).N
   simp only [frontGetID]
   rw [push_merges_keywise m nd KeyUId hnd hrep, hv]
   simp [LawfulJVal.asStr_norm_str]
+
+/-- the two together, as operations: right after a dirty session pushed a route key to its live
+connection, the connection's next message for that service type is handled by the instance
+the PUSHED value names, whatever the map said before -/
+theorem next_request_follows_push (cfg : Cfg) (s : State V) (b : Back V) (m kvs : AL V) (svcType : String) (rk : Key)
+    (v : V) (inst uid : String) (ntf : Bool) (script : List (SOp V))
+    (hb : BackInv true b) (hd : b.dirt = true) (hf : cfg.isFront b.serverId = true)
+    (hm : lget s.fronts b.target = some m) (hj : SData.toJson b.newData = some kvs)
+    (hrk : lget cfg.routeKey svcType = some rk) (hv : lget b.newData rk = some v)
+    (hinst : JVal.asStr (JVal.norm v) = some inst) (hty : cfg.typeOf inst = some svcType)
+    (hfty : cfg.typeOf b.serverId ≠ some svcType) (huid : frontGetID (amerge m kvs) = some uid) :
+    ∃ rs, (step cfg (backPush cfg s b).1 (.req b.target svcType ntf script)).obs =
+      .ran inst (some ⟨uid, b.serverId, b.netId⟩) rs (if ntf then .none else .ok) := by
+  have hp := backPush_live cfg s b m kvs hd hf hm hj
+  have hm' : lget (backPush cfg s b).1.fronts b.target = some (amerge m kvs) := by
+    rw [hp]; simp [lget_lset_same]
+  have hr : routeName cfg (amerge m kvs) svcType = inst := by
+    have h := routing_sees_merged_map cfg m b.newData svcType rk v hrk hb.ndN (hb.repN rfl) hv
+    rw [hj] at h
+    simp only [SData.updateFromJson] at h
+    rw [h, hinst]; rfl
+  subst hr
+  have hfc := forward_carries_current cfg (backPush cfg s b).1 b.target (amerge m kvs) svcType ntf script uid hm'
+    hf hfty hty huid
+  exact ⟨_, congrArg StepR.obs hfc.1⟩
 
 /-! ## 8. dead connections -/
 
